@@ -129,6 +129,35 @@ type WaitStep struct {
 	Dl string `json:"dl"`
 	// Rep > 1 (pipelined, one code): the request is sent Rep times back to back - a long history of the code.
 	Rep int `json:"rep"`
+	// Hold (race steps): forced schedule.  The harness plays a registrant that has taken the lock of the condition
+	// variable of every arriving table code and is suspended inside that critical section (Wait holds it between
+	// Lock and the unlock inside sync.Cond.Wait) while the requests arrive; it lets go HoldMs later.  Whatever the
+	// requests do meanwhile, everybody parked before the step must be released by them (C20_Step says so already).
+	Hold bool `json:"hold,omitempty"`
+}
+
+// CondOwner is implemented by bindings that can name the struct holding the table `conds [N]*sync.Cond`.
+type CondOwner interface{ CondServer() interface{} }
+
+// CondLocker returns the Locker of the condition variable of a table code (field L of conds[code]).
+func CondLocker(server interface{}, code int) (sync.Locker, error) {
+	v := reflect.ValueOf(server)
+	if v.Kind() != reflect.Ptr || v.IsNil() || v.Elem().Kind() != reflect.Struct {
+		return nil, errors.New("verifh: CondLocker needs a pointer to a struct")
+	}
+	conds := v.Elem().FieldByName("conds")
+	if !conds.IsValid() || conds.Kind() != reflect.Array || code < 0 || code >= conds.Len() {
+		return nil, errors.New("verifh: no table entry for this code")
+	}
+	p := conds.Index(code)
+	if p.Kind() != reflect.Ptr || p.IsNil() || p.Type() != reflect.TypeOf((*sync.Cond)(nil)) {
+		return nil, errors.New("verifh: table entry is not a *sync.Cond")
+	}
+	c := *(**sync.Cond)(unsafe.Pointer(p.UnsafeAddr()))
+	if c == nil || c.L == nil {
+		return nil, errors.New("verifh: condition variable without a Locker")
+	}
+	return c.L, nil
 }
 
 // WaitWalk is one planned trace on a fresh server.
@@ -164,6 +193,7 @@ type WaitSummary struct {
 	Panics    int    `json:"panics"`
 	Skipped   int    `json:"skipped"`
 	MaxParked int    `json:"max_parked"`
+	Held      int    `json:"held"` // condition-variable locks held by the harness across arriving requests (forced schedules)
 	Leaked    int    `json:"leaked"`
 	Aborted   int    `json:"aborted"` // walks not started because too many walks had got stuck
 	// Observer: "notify-lists" (parked goroutines read from the condition variables) or "timing" (no such table in
@@ -561,10 +591,33 @@ func runWalk(wk WaitWalk, b WaitBinding, grace, regMs time.Duration, timing bool
 				}
 			}
 		case "race":
+			var held []sync.Locker
+			if co, ok := b.(CondOwner); ok && st.Hold && !w.timing && co.CondServer() != nil {
+				seen := map[int]bool{}
+				for _, c := range st.Cs {
+					if l, e := CondLocker(co.CondServer(), c); e == nil && !seen[c] {
+						seen[c] = true
+						l.Lock()
+						held = append(held, l)
+					}
+				}
+				sum.Held += len(held)
+			}
 			for k, id := range st.Ws {
 				w.start(id, st.Wc[k], time.Duration(rnd.Intn(400))*time.Microsecond)
 			}
-			if err = w.requests(st.Cs, true, st.Dl, st.Rep); err == nil {
+			if len(held) > 0 {
+				rc := make(chan error, 1)
+				go func() { rc <- w.requests(st.Cs, true, st.Dl, st.Rep) }()
+				time.Sleep(time.Duration(2+rnd.Intn(4)) * time.Millisecond)
+				for _, l := range held {
+					l.Unlock()
+				}
+				err = <-rc
+			} else {
+				err = w.requests(st.Cs, true, st.Dl, st.Rep)
+			}
+			if err == nil {
 				if w.timing {
 					n, by, err = w.observeTiming(expect, watch)
 				} else {
@@ -754,6 +807,7 @@ func RunWaitPlan(mk func(r *mrand.Rand) (WaitBinding, error)) (WaitSummary, erro
 				}
 				total.Classes[k] += v
 			}
+			total.Held += s.Held
 			if s.MaxParked > total.MaxParked {
 				total.MaxParked = s.MaxParked
 			}
